@@ -111,3 +111,7 @@ Proof.
            (fun g x y Hg Hx _ => kce1_fy g x y Hg Hx)); try assumption.
   clear. induction y; constructor; auto.
 Qed.
+
+Lemma kl_equality_at_gradient_proof (g x : R) : 0 < g -> 0 < x ->
+  kl1 g x + klc1 g (1 - g / x) = x * (1 - g / x) /\ kce1 g x + kcec1 g (ln (x / g)) = x * ln (x / g).
+Proof. intros Hg Hx. split; [apply kl1_eq | apply kce1_eq]; assumption. Qed.
